@@ -144,6 +144,16 @@ def adapted_elem(closures, nextcall):
                 return None
             x = cl["returns"][0]
             changed = True
+        elif name == "filter_map" and cargs:
+            cl = closures.run(cargs[0], params={2: x})
+            if cl is None or cl["effects"]:
+                return None
+            somes = set(r[5][0][1] for r in cl["returns"] if r[0] == "agg" and r[2] == "core::option::Option" and r[3] == "Some" and r[5])
+            others = [r for r in cl["returns"] if not (r[0] == "agg" and r[2] == "core::option::Option")]
+            if len(somes) != 1 or others:
+                return None
+            x = next(iter(somes))
+            changed = True
         elif name in PASS_THROUGH:
             continue
         else:
@@ -1378,6 +1388,18 @@ class Adaptors:
         # element produced by the adaptors underneath it (expressed over the underlying element U)
         changed = False
         for i, (name, cargs) in enumerate(adaptors):
+            if name == "filter_map" and cargs:
+                # the element seen by the closure is what the adaptors underneath produce
+                below = ("call", nextcall[1], "core::iter::Iterator::next", (_strip_outer(nextcall[3][0], i + 1),))
+                ae_b = adapted_elem(self.closures, below)
+                if ae_b is not None:
+                    r = self._apply_filter(eng, st, cargs[0], ae_b[0], nextcall[1], by_value=True, some_only=True)
+                    if r is False:
+                        return False
+                    if r is not None:
+                        st = r
+                        changed = True
+                continue
             if name != "filter" or not cargs:
                 continue
             sub_it = _strip_outer(nextcall[3][0], i)
@@ -1394,12 +1416,24 @@ class Adaptors:
                 changed = True
         return st if changed else None
 
-    def _apply_filter(self, eng, st, closure, E, site):
+    def _apply_filter(self, eng, st, closure, E, site, by_value=False, some_only=False):
         from interp import classes_for, ALL, fz
-        cl = self.closures.run(closure, params={2: ("ref", E)})
+        cl = self.closures.run(closure, params={2: E if by_value else ("ref", E)})
         if cl is None or cl["effects"]:
             return None
-        live_paths = [(pcs, ret, vf) for pcs, ret, vf in cl["vpaths"] if not (is_const(ret) and ret[1] == "0")]
+        if some_only:
+            # filter_map: the element is delivered on the paths that return Some(..); nothing is assumed about the payload
+            def flag(ret):
+                if ret[0] == "agg" and ret[2] == "core::option::Option":
+                    return ("const", "1" if ret[3] == "Some" else "0", None)
+                return None
+            if any(flag(ret) is None for _p, ret, _v in cl["vpaths"]):
+                return None
+            live_paths = [(pcs, flag(ret), vf) for pcs, ret, vf in cl["vpaths"] if ret[3] == "Some"]
+            all_paths = [(pcs, flag(ret)) for pcs, ret in cl["paths"]]
+        else:
+            live_paths = [(pcs, ret, vf) for pcs, ret, vf in cl["vpaths"] if not (is_const(ret) and ret[1] == "0")]
+            all_paths = cl["paths"]
         if len(live_paths) == 1:
             # a single way for the predicate to hold: everything it tested is known for this element
             pcs, ret, vf = live_paths[0]
@@ -1429,7 +1463,7 @@ class Adaptors:
             common = set()
         allowed = {}
         touched = set()
-        for pcs, ret in cl["paths"]:
+        for pcs, ret in all_paths:
             conds = list(pcs) + [(ret, True)]
             per = {}
             feasible = True
